@@ -103,7 +103,10 @@ struct HashWorld : World {
     }
     void sut_destroy(Ctx &) override { if (t) { InSut s; t->free(t); } t = nullptr; }
     void sut_abandon() override { t = nullptr; }
-    void *sut_mutex() override { return nullptr; }
+#if QSIM_STRUCT
+    void *sut_mutex() override { return t ? t->qmutex : nullptr; }
+    bool sut_sees_mutex() override { return true; }
+#endif
     bool sut_user_lock() override { InSutLock s; t->lock(t); return true; }
     void sut_force_unlock() override { InSutLock s; t->unlock(t); }
     void sut_probe(Ctx &) override { InSut s; t->get(t, "probe-key", nullptr, false); }
